@@ -1,0 +1,44 @@
+//go:build verif
+
+package util
+
+// Contracts for the govc verifier (/verif). Comment-only.
+
+//@ spec func parseOK(s string) bool = uf("parseUintOK", "bool", s)
+//@ spec func parsed(s string) int = uf("parseUintVal", "int", s)
+//@ spec func expiredAt(m *api.Metric, t int) bool = t > unixnano(m.Expire)
+
+//@ extern strconv.ParseUint(s, base, bitSize)
+//@   ensures (err == nil) <==> parseOK(s)
+//@   ensures err == nil ==> res == parsed(s)
+
+// sort.Sort on a *metricSorter: assumed to permute peers (via Swap) into an order
+// consistent with Less, and to touch nothing else. Len/Less/Swap are under contract below.
+//@ extern sort.Sort(data)
+//@   modifies heap(metricSorter)
+//@   ensures forall r *metricSorter :: len(r.peers) == len(old(r.peers)) && elems(r.peers) == elems(old(r.peers)) && (distinct(old(r.peers)) ==> distinct(r.peers)) && isnil(r.peers) == isnil(old(r.peers))
+//@   ensures forall r *metricSorter :: r.m == old(r.m) && r.reverse == old(r.reverse)
+//@   ensures forall r *metricSorter, i int, j int :: 0 <= i && i < j && j < len(r.peers) ==> (r.reverse ==> r.m[r.peers[j]] <= r.m[r.peers[i]]) && (!r.reverse ==> r.m[r.peers[i]] <= r.m[r.peers[j]])
+
+//@ func (s metricSorter) Len
+//@   property C03
+//@   ensures res == len(s.peers)
+
+//@ func (s metricSorter) Less
+//@   property C03
+//@   ensures res <==> ((s.reverse && s.m[s.peers[i]] > s.m[s.peers[j]]) || (!s.reverse && s.m[s.peers[i]] < s.m[s.peers[j]]))
+
+//@ func SortNumeric
+//@   property C03
+//@   loop 1 (range candidates)
+//@     invariant distinct(peers) && !isnil(peers) && sub(elems(peers), seen1) && sub(elems(peers), dom(candidates))
+//@     invariant forall p peer.ID :: in(p, elems(peers)) ==> in(p, dom(vMap)) && candidates[p].Valid && parseOK(candidates[p].Value) && vMap[p] == parsed(candidates[p].Value)
+//@     invariant forall p peer.ID :: in(p, seen1) && candidates[p].Valid && parseOK(candidates[p].Value) && !expiredAt(candidates[p], now) ==> in(p, elems(peers))
+//@   ensures [lemma-sub] forall k int :: 0 <= k && k < len(res) ==> in(res[k], dom(candidates))
+//@   ensures [distinct] distinct(res) && sub(elems(res), dom(candidates))
+//@   ensures [only-valid-numeric] forall p peer.ID :: in(p, elems(res)) ==> candidates[p].Valid && parseOK(candidates[p].Value)
+//@   ensures [all-fresh-included] forall p peer.ID :: in(p, dom(candidates)) && candidates[p].Valid && parseOK(candidates[p].Value) && !expiredAt(candidates[p], now) ==> in(p, elems(res))
+//@   ensures [lemma-vals] forall k int :: 0 <= k && k < len(res) ==> in(res[k], elems(peers))
+//@   ensures [lemma-vals2] forall k int :: 0 <= k && k < len(res) ==> vMap[res[k]] == parsed(candidates[res[k]].Value)
+//@   ensures [ordered] forall i int, j int :: 0 <= i && i < j && j < len(res) ==> (reverse ==> parsed(candidates[res[j]].Value) <= parsed(candidates[res[i]].Value)) && (!reverse ==> parsed(candidates[res[i]].Value) <= parsed(candidates[res[j]].Value))
+//@   modifies nothing
